@@ -472,7 +472,14 @@ func CheckMain(args []string) int {
 	}
 	exit := 0
 	nViol := 0
-	os.MkdirAll(filepath.Join(root, "replays"), 0o755)
+	replayDir := filepath.Join(root, "replays")
+	evidenceDir := filepath.Join(root, "evidence")
+	if os.Getenv("VERIF_REPO") != "" {
+		// sensitivity experiment on a scratch copy: never touch the registered evidence
+		replayDir = filepath.Join(root, "bin", "alt-replays")
+		evidenceDir = filepath.Join(root, "bin", "alt-evidence")
+	}
+	os.MkdirAll(replayDir, 0o755)
 	sort.Slice(fresh, func(i, j int) bool { return violKey(fresh[i].Violation) < violKey(fresh[j].Violation) })
 	for i, rf := range fresh {
 		if i >= 6 {
@@ -483,7 +490,7 @@ func CheckMain(args []string) int {
 			min = Minimise(rf, prop, 25*time.Second)
 		}
 		name := fmt.Sprintf("%s-%s-%d-%d.json", prop, sanitize(rf.Violation.Rule), rf.Seed, rf.RunIdx)
-		path := filepath.Join(root, "replays", name)
+		path := filepath.Join(replayDir, name)
 		min.Save(path)
 		// replay in a fresh process and require the same rule
 		ok, outp := replayInFreshProcess(exe, path, min.Violation.Rule)
@@ -518,9 +525,9 @@ func CheckMain(args []string) int {
 
 	wall := time.Since(start).Seconds()
 	ev := buildEvidence(prop, *tier, *seed, total, agg, len(hashes), len(states), wall, nViol, knownHit, known, missing)
-	os.MkdirAll(filepath.Join(root, "evidence"), 0o755)
+	os.MkdirAll(evidenceDir, 0o755)
 	eb, _ := json.MarshalIndent(ev, "", " ")
-	if err := os.WriteFile(filepath.Join(root, "evidence", prop+".json"), eb, 0o644); err != nil {
+	if err := os.WriteFile(filepath.Join(evidenceDir, prop+".json"), eb, 0o644); err != nil {
 		fmt.Fprintln(os.Stderr, err)
 		return 2
 	}
